@@ -230,7 +230,7 @@ def check_supported(args):
                 bad('copy-carries-context', f'protocol {proto}: context travelled with the copy')
             if type(x) is A.PFoo:
                 want = ('derived', canon(x.p))
-                if getattr(x, 'derived', None) != want:
+                if getattr(x, 'derived', None) != want or not callable(getattr(x, 'helper', None)) or x.helper() != want:
                     bad('copy-lacks-post-init', f"protocol {proto}: post_init-derived attribute is {getattr(x, 'derived', '<missing>')!r}, want {want!r}")
                 if getattr(x, 'derived_key', None) != x.cache_key or getattr(x, 'derived_is_task', None) is not True:
                     bad('copy-post-init-too-early', f"protocol {proto}: post_init of the copy saw cache_key {getattr(x, 'derived_key', '<missing>')!r} / is_task "
